@@ -17,7 +17,7 @@ from ..models.mpt import BLANK_ROOT, RefMPT
 
 ID = "C04"
 LEVEL = "fault_enumeration"
-RUNS = {"quick": 1500, "thorough": 20000}
+RUNS = {"quick": 1500, "thorough": 10000}
 RULE = (
     "each run: 1-3 non-pruning HexaryTrie handles on one SimDB, each driven by its own writer actor (direct ops, "
     "squash_changes batches held open while other handles run, aborts), interleaved by the seeded scheduler, plus "
